@@ -38,7 +38,7 @@ CHECKS = {
          "Sequential part depth 3..5; the concurrent part is C10's scheduler exploration (programs containing abort and consumer variants that drop the body) and the loom cross-check restricted to programs with an abort and consumers that drop the body.", "3/C11"),
  "C16": ("neg_mc", "exhaustive enumeration of the Accept-Encoding list language (0..3/4 distinct codings x 11 weights x 4 whitespace styles) against an independent RFC 7231 5.3.4 evaluator; all short byte strings for the no-panic clause",
          "should_gzip is compared with the evaluator on every enumerated grammatical value (identity default = least-preferred acceptable, qualities in thousandths); repeated codings, every string of <= 5/7 symbols over 14 symbols (incl. 0xFF and two well-formed multi-byte UTF-8 characters) and every weight string of length <= 6 over {0,1,9,.} must not panic.",
-         "Upper-case codings / 'Q=' / duplicate codings: no claim (statement silent). Also lists of up to 42 distinct codings with the deciding elements first and last.", "3/C16"),
+         "Upper-case codings / 'Q=' / duplicate codings: no claim (statement silent) -- except that any value, grammatical or not, that contains neither 'gzip' (any case) nor '*' must give false. All 1000 pairs of adjacent weights (w-1, w thousandths) between gzip and identity / '*' in six list shapes. Also lists of up to 42 distinct codings with the deciding elements first and last.", "3/C16"),
  "C17": ("neg_mc+stream_mc", "exhaustive enumeration of Accept-Encoding values x gzip level 0..9 x chunk sizes x methods x request representation, real streaming_body + independent decoder",
          "Vary names accept-encoding; Content-Encoding: gzip iff evaluator prefers gzip and level > 0; body sniffed: says gzip <=> exactly one gzip member of the payload, else payload verbatim; Request and Parts representations agree; HEAD same headers and no writer.",
          "Accept-Encoding values: all C16 lists of <= 2 elements + 20 hand-picked; writer histories: write_all(n), flush, drop for n in {0, 300}; drop only; flush, drop; write_all(300), drop; short/long/short writes without a flush; 40 small writes, flush, one more byte.", "3/C17"),
@@ -47,10 +47,10 @@ CHECKS = {
          "Scheduling granularity = lock acquisition / wake / park (complete for safe code over one Mutex, no atomics); preemption bounds, budgets, caps and program lengths per family are listed in the evidence (thorough: all programs <= 4 ops unbounded, 5 ops at bound 3, 6 ops at bound 2, environment choices at bound 2-3, gzip writer at bound 3 -- the gzip family can hit its per-program cap, in which case `exhaustive` is false); no partial-order reduction.", "2.4, 3/C10"),
  "C18": ("fs_mc", "exhaustive enumeration of file sizes x ranges x truncation/growth fault points (before every poll) on real files, std::fs as reference",
          "Every range with start/end on, just before and just after the 64 KiB read boundaries, for seven file sizes, read through get_range and through serve(); truncation to every interesting length before every poll: error within a bounded number of polls, never a clean short end, delivered bytes unchanged; metadata and ETag stability / sensitivity (append, mtime +1s, +1ns, a lattice of mtime deltas around a recent time and mirrored around the epoch, replaced inode; pre-epoch, near-future and far-future mtimes with two instances compared); non-regular files refused.",
-         "Runs on the sandbox file system (ns-granular mtimes are probed and the +1ns case is counted as skipped if the fs truncates them). Ranges of >= 2^32 bytes are read from a sparse file (first chunks in quick, to the end in thorough).", "3/C18"),
+         "Also: truncation before the stream is requested on an instance that already served one, growth after construction, two live streams of one instance, new_with_metadata, streams polled inside a multi-thread runtime, joint length / mtime changes around the recent past and the epoch. Runs on the sandbox file system (ns-granular mtimes are probed and the +1ns case is counted as skipped if the fs truncates them). Ranges of >= 2^32 bytes are read from a sparse file (first chunks in quick, to the end in thorough).", "3/C18"),
  "C19": ("fs_mc", "exhaustive enumeration of path strings (1..3/4 segments over 9 segment kinds, slashes, NUL at every position) x Accept-Encoding x auto_gzip against a fixture tree, std::fs + independent negotiation evaluator as reference",
          "Lexical rule decides rejection (InvalidInput); accepted paths must open exactly the inode std::fs opens for base/path (or its .gz sibling when substitution applies), with the same error kind on failure, always inside the base directory; encoding()/add_encoding_headers consistent.",
-         "No symlinks in the fixture (documented non-goal of the crate); the empty path is excluded from the equality oracle only. Includes names of 250..256 bytes (NAME_MAX boundary for the .gz sibling), a 250+-byte path of short segments, request paths that themselves end in .gz (with and without a .gz.gz sibling), empty files, .gz siblings older / newer / as old as the plain file, names with space, backslash, percent escape and non-ASCII letters.", "3/C19"),
+         "get() is also awaited under block_on, on a worker thread, inside a LocalSet and in spawn_local; add_encoding_headers also on maps that already hold Vary entries; other request headers (Range ...) in the map given to get() must not matter. No symlinks in the fixture (documented non-goal of the crate); the empty path is excluded from the equality oracle only. Includes names of 250..256 bytes (NAME_MAX boundary for the .gz sibling), a 250+-byte path of short segments, request paths that themselves end in .gz (with and without a .gz.gz sibling), empty files, .gz siblings older / newer / as old as the plain file, names with space, backslash, percent escape and non-ASCII letters.", "3/C19"),
  "C12": ("serve_mc+stream_mc", "per-step monitor (size_hint, is_end_stream sampled before every poll) attached to every execution of the C01, C06, C08, C09, C11 explorations, plus all Body::from conversions",
          "Retrospective check on every sample of every explored body: lower <= bytes still delivered <= upper on clean ends, exact hints for serve/Body::from bodies, is_end_stream never followed by bytes or an error, streaming body never at end while chunks or an abort are pending.",
          "Same bounds as the explorations it rides on.", "3/C12"),
@@ -68,6 +68,14 @@ CHECKS = {
          "k = 4 extra polls.", "3/C20"),
 }
 
+# Families every check of an engine runs BEFORE its own sweeps (so that a wall cap never cuts them),
+# and what happens when the subject does not return or kills the process (DESIGN 12.8, 12.13, 12.14).
+COMMON = {
+ "serve_mc": " Run first in every serve_mc check: request-pair histories on fresh OS threads (serve() must be a function of its inputs: a result that depends on earlier calls, or that does not reproduce, is a violation), the 'zoo' (every rich alphabet -- entity tags, header sets incl. add_headers that read or replace entries, dates, mtimes, ranges, chunkings -- crossed once), bodies of 100..3000 ready frames drained inside a tokio task and by hand, and entity streams that are not fused (they panic when polled after their end).",
+ "stream_mc": " Run first in every stream_mc check: the streaming zoo (21 history shapes x 13 chunk sizes x identity/gzip levels x one waker / fresh waker per poll / every poll on a fresh OS thread x payload classes; operations include write_vectored and write!), and two-body histories (an aborted or dropped body with unread chunks, then a fresh body of the same chunk size: the second must not depend on the first).",
+}
+ABORT = " A call into the subject that has not returned after 60 s (watchdog), or that aborts the process by panicking while a panic unwinds (SIGABRT handler), is reported as a violation of this property with a replay file; an abort caused by a refused allocation reruns the explorer without entities above 16 MiB (evidence field fallback_mode)."
+
 def main():
     head = subprocess.run(["git", "-C", "/repo", "log", "--format=%h %s"], capture_output=True, text=True).stdout.splitlines()
     hooks = [l.split()[0] for l in head if "verif-hooks" in l]
@@ -76,6 +84,9 @@ def main():
         if pid not in CHECKS:
             continue
         eng, tech, text, note, ref = CHECKS[pid]
+        for e in eng.split("+"):
+            note += COMMON.get(e, "")
+        note += ABORT
         checks.append({
             "property_id": pid,
             "quick_cmd": f"./check {pid} --tier quick",
